@@ -30,6 +30,7 @@ RULE = ('one evaluation = one seeded run: a sequence of 10-80 calls f(*args, **k
 RULE += ' ' + 'The argument alphabet includes long (2 KB) str / bytes arguments in pairs that agree in length, first and last kilobyte, byte sum and Adler-32.'
 RULE += ' ' + 'Keyword names include parameter names of the memoizing machinery (ignore, typed, base, name, expire, tag, key, args, kwargs, self, func, default, retry); one seed in 97 passes the same argument once as one object twice and once as two equal objects.'
 RULE += ' ' + 'The probe function records the arguments it was called with: everything the caller passed, ignored ones included.'
+RULE += ' ' + 'Arguments include dicts in two insertion orders, lists, tuples and tuples of pairs.'
 ASSUMPTIONS = ['the probe function ignores the arguments listed in `ignore` (a function whose result depends on ignored arguments is outside the contract)',
                'without typed=True, numerically equal arguments (1, 1.0, True) may or may not share an entry; results are compared with ==']
 PROBES = ('hits', 'expired_recompute', 'stampede_threads', 'typed_runs', 'ignore_runs', 'functions', 'raising_calls', 'falsy_results', 'keys_compared_across_interpreters', 'identity_pairs')
@@ -48,6 +49,9 @@ ALPHA = [1, {'f': '1.0'}, True, None, 'a', 'x', 2, {'t': [1]}, {'i': str(2 ** 53
 _PAD = 'lorem ipsum ' * 170
 ALPHA += ['TOTAL: 131 ' + _PAD, 'TOTAL: 212 ' + _PAD, _PAD + ' page 131 ' + _PAD, _PAD + ' page 212 ' + _PAD,
           _PAD + 'a', _PAD + 'b', 'a' + _PAD, {'b': ('aca' + 'z' * 1500).encode().hex()}, {'b': ('bab' + 'z' * 1500).encode().hex()}]
+# containers: equal contents in another order or another container type are other arguments
+ALPHA += [{'d': [['a', 1], ['b', 2]]}, {'d': [['b', 2], ['a', 1]]}, {'t': [{'t': ['a', 1]}, {'t': ['b', 2]}]}, {'l': ['x', 'y']}, {'t': ['x', 'y']},
+          {'l': ['y', 'x']}, {'d': [['x', 1]]}, {'t': [{'t': ['x', 1]}]}]      # (no sets of text: their pickles follow the hash seed - F17)
 KW = ['a', 'x', 'b',
       # keyword names of the user's function that are also parameter names somewhere in the memoizing machinery
       'ignore', 'typed', 'base', 'name', 'expire', 'tag', 'key', 'args', 'kwargs', 'self', 'func', 'default', 'retry']
